@@ -25,26 +25,49 @@ structure Env where
   rnd : Nat      -- state of the random source
 deriving Repr, DecidableEq
 
-/-- SQLite seen from the log: executing a statement may consult the environment -/
+/-- SQLite seen from the log: executing a statement may consult the environment. `Covered` are
+the statements the rewriter makes deterministic (C01's grammar: parsable, RANDOM()/RANDOMBLOB()
+outside ORDER BY, RANDOMBLOB with a literal size, …); for the others — which the rewriter passes
+through unchanged or only partly rewritten — nothing is claimed. -/
 structure Sem (D S : Type) where
   exec    : Env → D → S → D
   rewrite : Env → S → S
-  /-- the C14 law: a statement that went through the rewriter does not consult the environment -/
-  rewritten_indep : ∀ (le : Env) (s : S) (e1 e2 : Env) (d : D), exec e1 d (rewrite le s) = exec e2 d (rewrite le s)
+  Covered : S → Prop
+  /-- the C14 law: a COVERED statement that went through the rewriter does not consult the
+  environment. For the real rewriter's model this is DERIVED (Props/C01 `sqlSem`) from
+  C14.no_nondet_left; it is a hypothesis only for an arbitrary `Sem`. -/
+  rewritten_indep : ∀ (le : Env) (s : S), Covered s →
+    ∀ (e1 e2 : Env) (d : D), exec e1 d (rewrite le s) = exec e2 d (rewrite le s)
 
 inductive Endpoint where
   | execute        -- POST /db/execute
   | queued         -- POST /db/execute?queue
   | request        -- POST /db/request
   | loadText       -- POST /db/load with a body that is not a SQLite file
+  | queryStrong    -- GET/POST /db/query at level strong: the query travels through the log
 deriving Repr, DecidableEq
 
-/-- does the endpoint run the rewriter before the statements reach the log? -/
-def rewrites : Endpoint → Bool
-  | .execute => true
-  | .queued => true
-  | .request => true
-  | .loadText => true
+/-- the rewriter / forwarding calls of the endpoint's handler, in source order. These lists ARE
+what harness/extract reads from http/service.go (Props/C01 `code_write_endpoints`). -/
+def endpointCalls : Endpoint → List String
+  | .execute => ["sql.Process", "s.proxy.Execute"]
+  | .queued => ["sql.Process", "s.stmtQueue.Write"]
+  | .request => ["sql.Process", "s.proxy.Request"]
+  | .loadText => ["db.IsValidSQLiteData", "s.proxy.Load", "sql.Process", "s.proxy.Execute"]
+  | .queryStrong => ["sql.Process", "s.proxy.Query"]
+
+/-- the call that hands the statements on towards the log -/
+def forwardCall : Endpoint → String
+  | .execute => "s.proxy.Execute"
+  | .queued => "s.stmtQueue.Write"
+  | .request => "s.proxy.Request"
+  | .loadText => "s.proxy.Execute"
+  | .queryStrong => "s.proxy.Query"
+
+/-- does the endpoint run the rewriter before the statements reach the log? Computed from the
+call list: `sql.Process` occurs before the forwarding call. -/
+def rewrites (ep : Endpoint) : Bool :=
+  ((endpointCalls ep).takeWhile (fun c => c != forwardCall ep)).contains "sql.Process"
 
 /-- what reaches the log for a request received at `le` through `ep` -/
 def logged {D S : Type} (M : Sem D S) (ep : Endpoint) (le : Env) (ss : List S) : List S :=
@@ -99,14 +122,15 @@ theorem Expr.eval_rewrite (le e : Env) (x : Expr) : (x.rewrite le).eval e = x.ev
 def miniSem : Sem Db XStmt where
   exec := XStmt.exec
   rewrite := XStmt.rewrite
+  Covered := fun _ => True
   rewritten_indep := by
-    intro le s e1 e2 d
+    intro le s _ e1 e2 d
     cases s with
     | put k v => simp [XStmt.rewrite, XStmt.exec, Expr.eval_rewrite]
     | del k => rfl
 
 /-! ### line protocol (`rqdrv converge`)
-`endpoint <execute|queued|request|loadtext>` → `true|false`   does it rewrite?
+`endpoint <execute|queued|request|loadtext|querystrong>` → `true|false`   does it rewrite?
 `logged <endpoint> <now> <rnd> <stmt,…>`  → the statements that reach the log
    statements: `p:<k>:<expr>` / `d:<k>`; expr: `r` random, `n` now, integer literal, `a+b`
 `paths <now1> <rnd1> <now2> <rnd2> <stmt,…>` → `same|differ` two apply paths over the same log -/
@@ -121,6 +145,7 @@ def parseEndpoint : String → Option Endpoint
   | "queued" => some .queued
   | "request" => some .request
   | "loadtext" => some .loadText
+  | "querystrong" => some .queryStrong
   | _ => none
 
 def parseAtom (t : String) : Option Expr :=
